@@ -576,6 +576,8 @@ func MakeForeign(r *rng.R, opts ForeignOpts) *Foreign {
 		}
 		sb.WriteString(fmt.Sprintf(`<w:style w:type="%s"%s w:styleId="%s"><w:name w:val="%s"/></w:style>`, typ, def, id, id))
 	}
+	// the styles of table-of-contents entries (only the entries of a table of contents use them, see "toc-paragraphs")
+	sb.WriteString(`<w:style w:type="paragraph" w:styleId="TOC1"><w:name w:val="toc 1"/></w:style><w:style w:type="paragraph" w:styleId="TOC2"><w:name w:val="toc 2"/></w:style>`)
 	sb.WriteString(`</w:styles>`)
 	f.put("word/styles.xml", sb.String())
 	ovr("word/styles.xml", "application/vnd.openxmlformats-officedocument.wordprocessingml.styles+xml")
@@ -844,6 +846,14 @@ func MakeForeign(r *rng.R, opts ForeignOpts) *Foreign {
 		k := r.Intn(11)
 		if opts.Simple && k >= 7 {
 			k = 0
+		}
+		if !opts.Simple && i == 0 && r.Chance(1, 8) {
+			// a table of contents as Word writes it without a content control: paragraphs in the styles TOC1/TOC2, followed by the
+			// ordinary content of the document (paragraphs without a style of their own, tables)
+			w.feature("toc-paragraphs")
+			for j, n := 0, r.Range(1, 3); j < n; j++ {
+				body.WriteString("<" + w.el("p") + "><" + w.el("pPr") + "><" + w.el("pStyle") + w.at("val", []string{"TOC1", "TOC2"}[r.Intn(2)]) + "/></" + w.el("pPr") + "><" + w.el("r") + "><" + w.el("t") + ">Contents entry</" + w.el("t") + "></" + w.el("r") + "></" + w.el("p") + ">")
+			}
 		}
 		switch k {
 		default:
